@@ -72,6 +72,10 @@ fixed("C01", "SHLVL=4294967295", "`SHLVL=4294967295 brush -c true` panicked at s
 finding("C01-huge-brace-range", "C01", "a brace range with an astronomically large bound (`{1..9223372036854775807}`, `{4294967296..3}`) exhausts memory/time (capacity-overflow panic, abort or hang) where bash prints the braces literally",
         all=["huge-range"], why="needs an allocation policy for brace expansion, not a local patch")
 fixed("C01", "brace expansion parsing is no longer exponential in the nesting depth", "`echo {{{{{{{{{{{{{{{{{{{{{{x}}}}}}}}}}}}}}}}}}}}}}` (22 nested braces that do not form a brace expansion) did not finish within a minute; `parse_brace_expansions` took 2x per nesting level (also for `{ { { …` texts reaching it as one word)")
+finding("C01-heredoc-empty-delimiter-at-eof", "C01", "`<<''` or `<<\"\"` followed by a blank and the end of the input (5 characters): the tokenizer never leaves the here-document state at end of input (an empty delimiter 'matches' the empty rest again and again), memory grows until the process aborts; seen in the parser entry points and through the real binary (`brush -c \"<<'' \"` under `ulimit -v`: Aborted, status 134; bash: a warning, status 0)",
+        all=["heredoc-empty-delimiter", "worker-death"], why="found in the last hour of the session by the thorough tier (strings of length 5); the repair belongs in remove_here_end_tag / the end-of-input branch of next_token_until and was not attempted for lack of time to validate it")
+finding("C01-editor-nested-extglob-exponential", "C01", "highlighting/completing a line with 32 nested extended-glob groups (`case a in @(@(…(a)…)) …`) does not finish within 12 s (depth 16 does); the non-interactive shell runs the same text in 0.01 s",
+        all=["nest:extglob", "timeout"], why="same family as C19-exponential-nesting (interactive entry points re-parse nested constructs); thorough tier only")
 finding("C01-nested-case-subshell-exponential", "C01", "`case a in a) ( case a in a) ( … ) ;; esac ) ;; esac`: parsing alternating `case` items and subshells takes time exponential in the depth (x2 per level: 16 levels 0.4 s, the corpus's 32+32 levels do not finish; bash: instant) - the optional `(` before a case pattern makes the item ambiguous with a subshell and the PEG parser backtracks over the whole nested body",
         all=["nest:case", "nest:subshell", "timeout"], why="needs a restructuring of the case-item rule (or caching of the compound-command rules); thorough tier only (depth 64)")
 finding("C01-nested-case-procsub-exponential", "C01", "same with process substitutions between the `case` levels (`case a in a) vcat <(case a in a) … esac) ;; esac`)",
@@ -167,6 +171,8 @@ finding("C07-malformed", "C07", "lexing quirks: empty `$(( ))` is an error (bash
 finding("C07-inc-dec-run-before-non-name", "C07", "`++`/`--` not followed by a name: bash reads `++ +x`, `+++x`, `x+ ++1`, `++-x` as unary signs (and `+ ++x`), brush reports a syntax error (or, for `1++x`, accepts what bash rejects)",
         all=["confusable-pair", "same-when-alone", "text:inc-dec-run"], why="the arithmetic grammar tokenises `++`/`--` greedily without bash's look-ahead for an identifier; the result is the same whether or not another spelling was evaluated before (not order-dependent)")
 # ---------------------------------------------------------------------------------------------- C08
+finding("C06-leading-rbracket", "C06", "same defect as C08-leading-rbracket seen through the removal operators: with p='[]]' `${v#$p}` / `${v##$p}` / `%` / `%%` do not treat the `]` right after `[` as a member (v=']a' stays, v='[]]' is emptied); thorough tier only (patterns of three symbols)",
+        all=["pat:bracket"], why="same repair as C08-leading-rbracket (bracket-expression translation in brush-parser/src/pattern.rs)")
 finding("C08-leading-rbracket", "C08", "a `]` right after `[` or `[!` is not taken literally (`[]]`, `[!]]`)",
         all=["pat:leading-rbracket"])
 finding("C08-nullglob-invalid-bracket", "C08", "under nullglob a word with an unterminated `[` is kept; bash removes it (any unquoted `[` makes the word a pattern)",
